@@ -496,12 +496,23 @@ impl Asset for Sent {
 }
 const SENTINEL: &str = "zz_sentinel";
 
-/// Announces a change of `<id>.t` and waits until the reloader has processed it: the sentinel's
-/// own change is announced afterwards on the same channel. Bounded by counting round trips.
+/// Announces a change of `<id>.t` and waits until the reloader has processed it.
 fn notify_and_wait(cache: &AssetCache<MemSource>, src: &MemSource, id: &str, version: &mut u32) -> bool {
+    src.send(&crate::memsrc::OwnedEntry::File(id.to_string(), "t".to_string()));
+    sentinel_barrier(cache, src, version)
+}
+
+/// Creates the sentinel's file (call before the cache is used).
+pub fn install_sentinel(src: &MemSource) {
+    src.tree().put(SENTINEL, "sn", b"ok:S0".to_vec(), Variant::Buffer);
+}
+
+/// Quiescence barrier: the sentinel's own change is announced on the same channel as every earlier
+/// notification; when its new value is visible, the earlier ones have been processed. Bounded by
+/// counting synchronous hot_reload round trips.
+pub fn sentinel_barrier(cache: &AssetCache<MemSource>, src: &MemSource, version: &mut u32) -> bool {
     use crate::memsrc::OwnedEntry;
     let Ok(sent) = cache.load::<Sent>(SENTINEL) else { return false };
-    src.send(&OwnedEntry::File(id.to_string(), "t".to_string()));
     *version += 1;
     let want = format!("S{version}");
     src.tree().put(SENTINEL, "sn", format!("ok:{want}").into_bytes(), Variant::Buffer);
@@ -633,7 +644,7 @@ fn run_front(front: Front, case: &Case, out: &mut Outcome) {
         Front::AssetAny => drive!(with_cpus(cpus, || AssetCache::with_source(make_source(case, false))), true, no_notify),
         Front::AssetHot | Front::AssetHotAny => {
             let src = make_source(case, true);
-            src.tree().put(SENTINEL, "sn", b"ok:S0".to_vec(), Variant::Buffer);
+            install_sentinel(&src);
             let h = src.handle();
             let notify = move |c: &AssetCache<MemSource>, id: &str, v: &mut u32| -> Option<bool> { Some(notify_and_wait(c, &h, id, v)) };
             if matches!(front, Front::AssetHot) {
